@@ -351,7 +351,7 @@ class C16(fw.Property):
                   "hand-written model of urllib.parse (urlsplit, hostname/port, unquote, urlunparse), set_request_uri, get_request_uri and UndecidedRemote: "
                   "UTF-8 and percent-coding round-trip for every Unicode string and both safe sets, path/query segment lists round-trip except the stated degenerate "
                   "ones, options -> URI -> options for every non-degenerate option set, every rejection on the modelled domain is MalformedUrlError / IncompleteUrlError "
-                  "(with the three stated exceptions that are open findings), host/port join-split round-trip for names, IPv4 and bracketed IPv6 literals with zones.")
+                  "(full strength since the repairs 1c4d498/9bbf9d1; the one open finding, unescaped reserved characters of Uri-Host in get_request_uri, is carried as an explicit hypothesis and a _refuted witness), host/port join-split round-trip for names, IPv4 and bracketed IPv6 literals with zones.")
     level_note = ("Trusted: Coq kernel + vm_compute; the str translator translate/jobs/c16.py and Model/C16Str.v intrinsics; the hand model's correspondence (sampled); "
                   "ipaddress (its results are an input table of the model; theorems assume idempotence/alphabet of its normal forms), CPython's UTF-8 codec and urllib.parse "
                   "beyond the modelled functions. A network location with non-ASCII characters (NFKC check, Unicode lower-casing) is outside the model: oracle-only.")
